@@ -224,11 +224,13 @@ func classify(o *jOp, es []effect, before, after snapshot) []string {
 			if before.Now-cmd.Created == 600000 {
 				out = append(out, "recon:at-timeout-boundary")
 			}
-			for j, l := range cmd.Latched {
-				if l {
-					out = append(out, "recon:wait:latched-skip")
-				} else if j < len(before.Repls) {
-					// outcome for this replacement
+			for _, r := range before.Repls {
+				if r.K == cmd.ID && r.J < len(cmd.Latched) && cmd.Latched[r.J] {
+					if r.InSt {
+						out = append(out, "recon:wait:latched-and-tracked")
+					} else {
+						out = append(out, "recon:wait:latched-but-gone-from-state")
+					}
 				}
 			}
 			for _, r := range before.Repls {
